@@ -161,16 +161,19 @@ CLAIMED = {
         text="Contract-based deductive proof by dependence analysis at EVERY kernel call performed by every contract unit "
              "(all generators, the three simulators' steps with their real buffer wiring, filters, SSP-RK3): written view vs each "
              "read access of the same buffer must not collide across different cells (LIA query, or decided by buffer identity); "
-             "every kernel writes at the centre cell only; spreading generators are serial (AST obligations).",
-        note=TRUST + " Not covered: FFTW's own multi-threaded plans; fastmath reassociation inside one numba reduction.",
+             "every kernel writes at the centre cell only; spreading generators are serial (AST obligations); source scans of all "
+             "of sopht/: no reduction over a numba.prange loop, num_threads only handed on (never computed with).",
+        note=TRUST + " Not covered: FFTW's own multi-threaded plans; fastmath reassociation inside one numba reduction. The two "
+             "source scans are syntactic criteria (stated as assumptions of their units).",
         technique="read/write-set extraction from the real assignment lists at every call + LIA (z3) + AST obligations",
         ref="5-C15"),
     "C16": dict(
         text="Contract-based deductive proof of the real compute_advection_diffusion_stable_timestep for all velocity fields, "
              "dx, cfl, nu > 0, prefactor in (0,1] (positivity, linearity, both limits; np.amax by contract), and of the maximum "
              "principle of the real Euler-forward diffusion closures (convex weights, no new extrema, ring unchanged).",
-        note=TRUST + " Assumed: np.amax contract, finfo eps in (0, 2^-23], nu > 0. The simulators' methods forwarding to the "
-             "function are covered by the C01 units.",
+        note=TRUST + " Assumed: np.amax contract, finfo eps in (0, 2^-23], nu > 0. The simulators' compute_stable_timestep methods "
+             "are checked for forwarding the whole velocity field, a grid-shaped disjoint scratch array, dx, nu, cfl, dimension and "
+             "for scaling by the prefactor, on a fresh simulator AND after a time step (nothing remembered from earlier steps).",
         technique="symbolic execution of the real function with np rebound to svx.symnp + z3 (QF_NRA)",
         ref="5-C16"),
     "C17": dict(
